@@ -66,7 +66,7 @@ Theorem C05_every_site_sound : forall s p, In s gen_sites -> slot_guard s p = tr
 Proof. exact every_site_sound. Qed.
 Print Assumptions C05_every_site_sound.
 
-(* the guards admit the syntactic classes of the lexer theorems *)
+(* the guards accept the syntactic classes of the lexer theorems *)
 Theorem C05_guard_dq_esc : forall slot file p, no_bs_nl p = true -> no_linesep p = true -> slot_guard (mk CDQ SEsc slot file) p = true.
 Proof. exact guard_dq_esc. Qed.
 Print Assumptions C05_guard_dq_esc.
